@@ -61,7 +61,9 @@ impl HighwayHash for PortableHash {
         }
 
         let (buffered, rest) = cursor.split_at_mut(PACKET_SIZE);
-        buffered.copy_from_slice(&self.buffer.buf);
+        for (dst, src) in buffered.iter_mut().zip(self.buffer.as_slice()) {
+            *dst = *src;
+        }
         rest.copy_from_slice(&(self.buffer.len() as u32).to_le_bytes());
         result
     }
